@@ -431,15 +431,33 @@ def plan(tier, seed):
     n = 16
     shards = [{'cells': chosen[i::n], 'all': tier == 'thorough'}
               for i in range(n)]
+    shards[1]['compete'] = [
+        {'compete': [srv, b_when, b_act, a_end]} for srv in ('T', 'A', 'H')
+        for b_when in ('before-probe', 'after-probe', 'probes-early')
+        for b_act in ('wrong-first', 'close', 'probe-then-wrong',
+                      'probe-then-close', 'probe-then-upgrade')
+        for a_end in ('client-close', 'disconnect')]
     shards[0]['nodriver'] = [{'srv': x, 'when': w} for x in SRV[:2]
                              for w in ('before', 'after')]
     return shards
+
+
+def run_compete(rec, case):
+    """Two upgrade sockets competing for one session (the scenario and its
+    oracles live in C15.run_compete): whatever the late-comer does - wrong
+    frame, close, the whole handshake - the session stays on the WebSocket
+    that completed first: transport() says so, polling reads are refused,
+    every message arrives on that socket."""
+    from vf.checks import c15
+    rec.count('competing_upgrade_attempts')
+    c15.run_compete(rec, case)
 
 
 def run_shard(spec):
     rec = Rec()
     for nd in spec.get('nodriver', []):
         scen.run_cases(rec, [nd], run_nodriver)
+    scen.run_cases(rec, spec.get('compete', []), run_compete)
     scen.run_cases(rec, [tuple(c) for c in spec['cells']], run_cell)
     if spec.get('all'):
         rec.extra['exhaustive'] = True
@@ -450,6 +468,9 @@ def replay(case):
     rec = Rec()
     if 'nodriver' in case:
         run_nodriver(rec, case['nodriver'])
+        return rec.violations
+    if 'compete' in case:
+        run_compete(rec, case)
         return rec.violations
     run_cell(rec, tuple(case['cell']))
     return rec.violations
